@@ -840,16 +840,22 @@ def run_consts(ck):
     ok, out = ck.coq_make(["gen/ProfConsts.vo"])
     if not ck.obligation("coq/gen/ProfConsts.v compiles", ok, out[-800:]):
         return
-    txt = ("From Coq Require Import NArith ZArith Bool.\nFrom Qryn Require Import model.Pprof model.ProfTree gen.ProfConsts.\n"
+    txt = ("From Coq Require Import NArith ZArith Bool List.\nFrom Qryn Require Import model.Pprof model.ProfTree gen.ProfConsts.\n"
            "Definition K := Eval vm_compute in (Z.eqb src_nodes_limit the_limit, Z.eqb src_names_limit the_limit, "
            "Z.leb src_sql_limit the_limit, N.eqb src_depth_clamp depth_clamp, N.eqb src_hash_shift hash_shift, "
-           "N.eqb src_depth_shift depth_shift, Z.eqb src_size_limit 1048576).\nPrint K.\n")
+           "N.eqb src_depth_shift depth_shift, Z.eqb src_size_limit 1048576, "
+           "Z.ltb 0 src_tree_lits && Z.eqb src_tree_lits_setting_sample_types 0, "
+           "Z.ltb 0 src_tree_new_calls && negb (Nat.eqb (length src_tree_sample_types_writes) 0) && forallb (Z.eqb 1) src_tree_sample_types_writes).\nPrint K.\n")
     rc, out = ck.coq_eval("C16_consts", txt)
     flat = " ".join(out.split())
     m = re.search(r"K = \(([a-z, ]+)\)", flat)
+    ck.extra["tree_construction_sites"] = [l.strip() for l in open(os.path.join(HERE, "coq", "gen", "ProfConsts.v")).read().split("construction sites of reader/service.Tree:")[1].split("*)")[0].splitlines() if l.strip()]
     vals = [x.strip() for x in m.group(1).split(",")] if (rc == 0 and m) else []
     names = ["MergeTrie node limit = the_limit", "MergeTrie names limit = the_limit", "SQL LIMIT <= the_limit (the guard of merge_is_sum)",
-             "depth clamp", "hash shift", "depth shift", "onProfile size threshold = 1 MiB (what the big classes cross)"]
+             "depth clamp", "hash shift", "depth shift", "onProfile size threshold = 1 MiB (what the big classes cross)",
+             "no literal of reader/service.Tree sets SampleTypes (every construction site of the repository, translate/treesites_src)",
+             "every write of a SampleTypes field in the repository assigns a ONE-element []string literal: no caller builds a "
+             "multi-sample-type Tree (the reader model ProfTree.v is for one sample type)"]
     for i, nm in enumerate(names):
         ck.obligation("source constant: " + nm, len(vals) == len(names) and vals[i] == "true", out[-300:])
 
